@@ -22,6 +22,8 @@ def finish_replay(path, failing, note=""):
     json.dump(d, open(path, "w"), indent=1, default=str)
     if failing is not None:
         print(f"REPLAY reproduced on real code: {failing}")
+        print("REPLAY-VERDICT: reproduced")
+        sys.stdout.flush()
         sys.exit(1)
     print("REPLAY no failing input found natively " + note)
     sys.exit(0)
